@@ -34,4 +34,5 @@ def main(tier):
     chk.run("R-GATE", P.gate, r, s, cx.sites, floor=4)
     chk.run("R-INTRANGE", RG.intrange, r, floor=190)
     chk.run("R-INTERMEDIATE", RG.intermediate, r, floor=2)
+    chk.run("R-RENDERCONST", RG.renderconst, r, floor=30)
     return chk.finish()
